@@ -20,17 +20,45 @@ axiom a-written-version-reads-back: forall n int :: atoi64(decimal(n)) == n
 
 
 
+// goroutines of one member are kept apart only by the sync.Mutex inside the ONE cluster-mutex object the server
+// caches (every mutex object of a member shares the member's etcd session, and the etcd lock is re-entrant per
+// session): once created, the cached object is never replaced - not on success, and not on the way to the panic
+// of a failed or timed-out acquisition either
+ghost var gAcqFailed bool
+func (s *Server) getMutex() (m cluster.Mutex, err error)
+  flag allocates
+  requires s != nil && s.cluster != nil
+  requires a-cached-mutex-is-an-object: s.mutex != nil ==> ifaceVal(s.mutex) != 0
+  modifies s.mutex
+  ensures the-cached-mutex-is-never-replaced: old(s.mutex != nil) ==> err == nil && s.mutex == old(s.mutex)
+  ensures the-one-handed-out-is-the-cached-one: err == nil ==> m != nil && ifaceVal(m) != 0 && m == s.mutex
+  ensures a-failed-creation-caches-nothing: err != nil ==> s.mutex == old(s.mutex)
+
 func (s *Server) Lock()
-  trusted
+  flag allocates
+  requires s != nil && s.cluster != nil
+  requires a-cached-mutex-is-an-object: s.mutex != nil ==> ifaceVal(s.mutex) != 0
   requires not-held: !apiLocked
-  modifies apiLocked
-  ensures apiLocked
+  modifies apiLocked, s.mutex, gAcqFailed, mHeld
+  panics_only_if the-acquisition-failed-and-the-members-mutex-object-is-kept: gAcqFailed && (old(s.mutex != nil) ==> s.mutex == old(s.mutex))
+  ensures apiLocked && s.mutex != nil && ifaceVal(s.mutex) != 0 && mHeld[ifaceVal(s.mutex)]
+  ensures the-members-mutex-object-is-kept: old(s.mutex != nil) ==> s.mutex == old(s.mutex)
+  ghost at call[1] getMutex: gAcqFailed := err != nil
+  ghost at call[1] Lock: gAcqFailed := err != nil
+  ghost at return: apiLocked := true
 
 func (s *Server) Unlock()
-  trusted
+  flag allocates
+  requires s != nil && s.cluster != nil
+  requires a-cached-mutex-is-an-object: s.mutex != nil ==> ifaceVal(s.mutex) != 0
   requires held: apiLocked
-  modifies apiLocked
+  modifies apiLocked, s.mutex, gAcqFailed, mHeld
+  panics_only_if the-release-failed-and-the-members-mutex-object-is-kept: gAcqFailed && (old(s.mutex != nil) ==> s.mutex == old(s.mutex))
   ensures !apiLocked
+  ensures the-members-mutex-object-is-kept: old(s.mutex != nil) ==> s.mutex == old(s.mutex)
+  ghost at call[1] getMutex: gAcqFailed := err != nil
+  ghost at call[1] Unlock: gAcqFailed := err != nil
+  ghost at return: apiLocked := false
 
 ghost var gParseFailed bool
 ghost var gSpecFailed bool
@@ -111,8 +139,8 @@ pred storeFailed() := gGetFailed || gSpecFailed || gParseFailed || gPutFailed ||
 
 func (s *Server) createObject(w http.ResponseWriter, r *http.Request)
   flag allocates
-  requires s != nil && s.cluster != nil && s.super != nil && w != nil && r != nil && r.URL != nil && !apiLocked
-  modifies gCheckedLocked, kvHas, kvVal, gGetFailed, gSpecFailed, gParseFailed, gPuts, gPutKey, gPutVal, gPutFailed, versionHeader, apiLocked, wroteStatus, gName, gSpec, gKind, gReadFailed, allof("map<string,[]string>#dom"), allof("map<string,[]string>#card"), allof("map<string,[]string>#val#arr"), allof("map<string,[]string>#val#len"), allof("map<string,[]string>#val#cap"), allof("elem<string>")
+  requires s != nil && s.cluster != nil && s.super != nil && w != nil && r != nil && r.URL != nil && !apiLocked && (s.mutex != nil ==> ifaceVal(s.mutex) != 0)
+  modifies s.mutex, gAcqFailed, mHeld, gCheckedLocked, kvHas, kvVal, gGetFailed, gSpecFailed, gParseFailed, gPuts, gPutKey, gPutVal, gPutFailed, versionHeader, apiLocked, wroteStatus, gName, gSpec, gKind, gReadFailed, allof("map<string,[]string>#dom"), allof("map<string,[]string>#card"), allof("map<string,[]string>#val#arr"), allof("map<string,[]string>#val#len"), allof("map<string,[]string>#val#cap"), allof("elem<string>")
   panics_only_if the-store-failed: storeFailed()
   ensures the-existence-check-runs-under-the-cluster-mutex: gCheckedLocked
   ensures mutex-released: !apiLocked
@@ -128,8 +156,8 @@ func (s *Server) createObject(w http.ResponseWriter, r *http.Request)
 
 func (s *Server) updateObject(w http.ResponseWriter, r *http.Request)
   flag allocates
-  requires s != nil && s.cluster != nil && s.super != nil && w != nil && r != nil && !apiLocked
-  modifies gCheckedLocked, kvHas, kvVal, gGetFailed, gSpecFailed, gParseFailed, gPuts, gPutKey, gPutVal, gPutFailed, versionHeader, apiLocked, wroteStatus, gName, gSpec, gKind, gReadFailed, allof("map<string,[]string>#dom"), allof("map<string,[]string>#card"), allof("map<string,[]string>#val#arr"), allof("map<string,[]string>#val#len"), allof("map<string,[]string>#val#cap"), allof("elem<string>")
+  requires s != nil && s.cluster != nil && s.super != nil && w != nil && r != nil && !apiLocked && (s.mutex != nil ==> ifaceVal(s.mutex) != 0)
+  modifies s.mutex, gAcqFailed, mHeld, gCheckedLocked, kvHas, kvVal, gGetFailed, gSpecFailed, gParseFailed, gPuts, gPutKey, gPutVal, gPutFailed, versionHeader, apiLocked, wroteStatus, gName, gSpec, gKind, gReadFailed, allof("map<string,[]string>#dom"), allof("map<string,[]string>#card"), allof("map<string,[]string>#val#arr"), allof("map<string,[]string>#val#len"), allof("map<string,[]string>#val#cap"), allof("elem<string>")
   panics_only_if the-store-failed: storeFailed()
   ensures the-existence-check-runs-under-the-cluster-mutex: gCheckedLocked
   ensures mutex-released: !apiLocked
@@ -147,8 +175,8 @@ func (s *Server) updateObject(w http.ResponseWriter, r *http.Request)
 
 func (s *Server) deleteObject(w http.ResponseWriter, r *http.Request)
   flag allocates
-  requires s != nil && s.cluster != nil && s.super != nil && w != nil && r != nil && !apiLocked
-  modifies gCheckedLocked, kvHas, kvVal, gGetFailed, gSpecFailed, gParseFailed, gDelFailed, gPuts, gPutKey, gPutVal, gPutFailed, versionHeader, apiLocked, wroteStatus, gName, gSpec, gKind, gReadFailed, allof("map<string,[]string>#dom"), allof("map<string,[]string>#card"), allof("map<string,[]string>#val#arr"), allof("map<string,[]string>#val#len"), allof("map<string,[]string>#val#cap"), allof("elem<string>")
+  requires s != nil && s.cluster != nil && s.super != nil && w != nil && r != nil && !apiLocked && (s.mutex != nil ==> ifaceVal(s.mutex) != 0)
+  modifies s.mutex, gAcqFailed, mHeld, gCheckedLocked, kvHas, kvVal, gGetFailed, gSpecFailed, gParseFailed, gDelFailed, gPuts, gPutKey, gPutVal, gPutFailed, versionHeader, apiLocked, wroteStatus, gName, gSpec, gKind, gReadFailed, allof("map<string,[]string>#dom"), allof("map<string,[]string>#card"), allof("map<string,[]string>#val#arr"), allof("map<string,[]string>#val#len"), allof("map<string,[]string>#val#cap"), allof("elem<string>")
   panics_only_if the-store-failed: storeFailed()
   ensures the-existence-check-runs-under-the-cluster-mutex: gCheckedLocked
   ensures mutex-released: !apiLocked
